@@ -73,7 +73,7 @@ impl Shared {
         let g = match self.m.lock() {
             Ok(g) => g,
             Err(e) => {
-                self.fails.lock().unwrap().push("the mutex is poisoned".into());
+                self.fails.lock().unwrap_or_else(|e| e.into_inner()).push("the mutex is poisoned".into());
                 e.into_inner()
             }
         };
@@ -419,7 +419,7 @@ pub fn build(rng: &mut Rng, tier: u32) -> LiveBuilt {
             if ld(&left) != 0 {
                 fails.push(format!("permits: {} left although every consumer finished", ld(&left)));
             }
-            fails.extend(sh.fails.lock().unwrap().drain(..));
+            fails.extend(sh.fails.lock().unwrap_or_else(|e| e.into_inner()).drain(..));
             fails
         }),
     }
